@@ -172,6 +172,7 @@ def c05_programs(rng, tier) -> List[Item]:
     items += lifted_falsy_items(rng, sizes(tier, 15, 100))
     items += shared_constant_items(rng, sizes(tier, 90, 450))
     items += shared_argument_items(rng, sizes(tier, 30, 150))
+    items += interface_items(rng, sizes(tier, 12, 60))
     items += dataset_class_items(rng, sizes(tier, 30, 150))
     return items
 
@@ -884,12 +885,49 @@ def minimal_backend_items(rng, n) -> List[Item]:
     return items
 
 
+def interface_items(rng, n) -> List[Item]:
+    """interfaces in the program language: members declared by annotation, with a function default, with a plain
+    CONSTANT default, with an evaluatable default; implementations given as functions (registered by the library as bare
+    applications: the member dataset's cache is their only memoisation), evaluatables or constants, under one or several
+    aliases; consumers in a diamond.  Each member is a cached dataset: repeats are served from its cache whatever the
+    kind of its default, an implementation's body runs once per distinct assignment"""
+    items = []
+    for i in range(n):
+        P = Prog()
+        disp = P.option("IMPL", bare=True) if i % 3 else P.option("IMPL", dflt=P.value("base"))
+        mem = P.interface(disp, [("table", "const", rng.choice(["t0", 0, None, [1]])),
+                                 ("rows", "fn", [("a", P.option("A"))]),
+                                 ("limit", "eval", P.option("LIMIT", dflt=P.value(10))),
+                                 ("extra", "ann", None)])
+        impl = P.implement(mem, ["fast"] if i % 2 else ["fast", "quick"],
+                           [("table", "fn", [("b", P.option("B", dflt=P.value(0)))]),
+                            ("rows", "node", P.dataset([("a", P.option("A"))])),
+                            ("extra", "fn", [])] + ([("limit", "const", 5)] if i % 4 == 0 else []))
+        left = P.dataset([("t", mem["table"]), ("r", mem["rows"])])
+        right = P.dataset([("t", mem["table"]), ("l", mem["limit"])])
+        top = P.dataset([("x", left), ("y", right)])
+        root = [top, mem["table"], P.collection("list", [mem["table"], mem["extra"], mem["table"]])][i % 3]
+        repeats = []
+        for o in [{"IMPL": "fast", "A": 1}, {"A": 1}, {"IMPL": "quick", "A": 2, "B": 1}, {"IMPL": "other", "A": 1}]:
+            P.evaluate(root, o)
+            first = len(P.ops) - 1
+            for kind2, o2 in (("exact", o), ("extra", dict(o, ZZ9=1))):
+                P.evaluate(root, sort_json(o2))
+                repeats.append((first, len(P.ops) - 1, kind2))
+        bodies = _dataset_bodies(P)
+        nodes = {nd["id"]: nd for nd in P.nodes}
+        extra = [nodes[nodes[nid]["f"]]["v"]["f"] for nid in impl.values() if nodes[nid]["k"] == "funapp"]
+        items.append((P.to_json(), {"repeats": repeats, "bodies": bodies, "family": [], "extra_cached_bodies": extra}))
+    return items
+
+
 def c02_programs(rng, tier) -> List[Item]:
     items = corpus_items("C02")
     cfg = Cfg(raising=False, all_options=False)
     items += gen_items(rng, cfg, sizes(tier, 300, 4000), hist_memo)
     items += effect_family_items(rng, sizes(tier, 60, 600))
     items += minimal_backend_items(rng, sizes(tier, 44, 330))
+    items += interface_items(rng, sizes(tier, 24, 120))
     return items
 
 
@@ -897,7 +935,7 @@ def c02_oracle(prog, meta, impl, model):
     out = []
     bodies = meta.get("bodies", {})
     STORES = ("memory", "getonly")      # (a get/set-only backend occurs with an all-behave script only in C02 programs)
-    cached_bodies = {b["body"] for b in bodies.values() if b["body"] and b["cache"] in STORES}
+    cached_bodies = {b["body"] for b in bodies.values() if b["body"] and b["cache"] in STORES} | set(meta.get("extra_cached_bodies", []))
     effect_names = {e for b in bodies.values() if b["cache"] in STORES for e in b["effects"]}
     for first, second, kind in list(meta.get("repeats", [])) + list(meta.get("member_repeats", [])):
         if first >= len(impl) or second >= len(impl):
@@ -1702,6 +1740,7 @@ def c06_programs(rng, tier) -> List[Item]:
     items += gen_items(rng, cfg, sizes(tier, 300, 4000), hist_all_ops, ops=("evaluate",))
     items += dataset_class_items(rng, sizes(tier, 40, 200))
     items += dispatch_domain_items(rng, sizes(tier, 20, 100))
+    items += interface_items(rng, sizes(tier, 12, 60))
     return items
 
 
@@ -1721,7 +1760,7 @@ def c06_oracle(prog, meta, impl, model):
         if a["r"][0] == "fuel" or b["r"][0] == "fuel":
             continue
         ca = [dumps(c) for c in a["calls"]]
-        cb = [dumps([c[0], canon_model_value(c[1]), canon_model_value(c[2])]) for c in b["calls"]]
+        cb = [dumps([c[0], canon_model_value(c[1]), canon_model_value(c[2])]) for c in b["calls"] if not c[0].startswith("lib:")]
         if ca != cb:
             extra = [c for c in ca if c not in cb]
             what = ("a body that is not on the selected path ran" if extra else
@@ -2847,11 +2886,47 @@ def exception_class_items(rng, n) -> List[Item]:
     return items
 
 
+def custom_node_items(rng, n) -> List[Item]:
+    """user-defined Evaluatable subclasses (operations defined in the class body, inherited from a plain mixin, inherited
+    from a user-defined base) around failing and succeeding expressions, alone and as the dispatch of a switch with a
+    default, a coalesce member, a dataset argument: a failure below such a node is an EvaluationError whose source is
+    the object evaluate() was called on and whose chain passes through the node; catch positions still catch"""
+    items = []
+    shapes = ["direct", "mixin", "sub", "sub_mixin"]
+    for i in range(n):
+        P = Prog()
+        shape = shapes[i % 4]
+        name = f"r{i}"
+        P.free(name, **{"raise": {"cls": rng.choice(["KeyError", "ValueError", "CustomError", "RecursionError"]), "on": [0]}})
+        inner = [lambda: P.option("A"), lambda: P.apply(P.option("A"), P.fnvalue(name)),
+                 lambda: P.switch(P.option("A", bare=True), [(1, P.value("one"))])][(i // 4) % 3]()
+        node = P.custom(inner, shape)
+        pos = (i // 12) % 5
+        if pos == 0:
+            root = node
+        elif pos == 1:
+            root = P.switch(node, [(1, P.value("sel"))], P.value("dflt"))
+        elif pos == 2:
+            root = P.coalesce([node, P.value("fallback")])
+        elif pos == 3:
+            root = P.dataset([("v", node)])
+        else:
+            root = P.cached(P.custom(node, shapes[(i + 1) % 4]))
+        recs = []
+        for o in [{"A": 1}, {}, {"A": 0}, {"A": 1}, {"A": 2}, {}]:
+            P.evaluate(root, o)
+            P.evaluate(root, o, cache_off=True)
+            recs.append((len(P.ops) - 2, len(P.ops) - 1))
+        items.append((P.to_json(), {"fail": recs, "root": root, "root_cid": None, "raising": {}}))
+    return items
+
+
 def c12_programs(rng, tier) -> List[Item]:
     items = corpus_items("C12")
     items += c12_domain_items(rng, sizes(tier, 40, 300))
     items += unmatched_switch_items(rng, sizes(tier, 44, 220))
     items += exception_class_items(rng, sizes(tier, 80, 800))
+    items += custom_node_items(rng, sizes(tier, 60, 240))
     cfg = Cfg(raising=True)
     items += gen_items(rng, cfg, sizes(tier, 350, 4000), hist_failures)
     return items
